@@ -8,7 +8,7 @@ RULE = ('validator: PtrTrampoline (the real fixOrigin path) is run, without dive
         'two results, deferred) is mocked through the public API with Origin(&placeholder).Apply(cb -> 3*origin+1) and called warm, on fresh goroutines and at every depth of a '
         '64-byte-step recursion sweep across stack-growth boundaries; result and callback count must be those of the unmocked function; '
         'synthetic zoo: byte-exact shapes (RIP-relative compare with imm8/imm32, two short branches, short branch then CALL/LEA, branch outside the widening table, E9/E8 first, '
-        'MOV/LEA rip-relative, recursive call to the entry, loop at the entry, function shorter than the jump) written into a harness mapping and executed before/while/after mocking, placeholder ~1 KiB before and after plus 72-byte placeholders at 96..328 bytes either side (re-based rel8 displacements on both sides of the signed-byte limits); '
+        'MOV/LEA rip-relative, recursive call to the entry, loop at the entry, function shorter than the jump) written into a harness mapping and executed before/while/after mocking, placeholder ~1 KiB before and after plus 72-byte placeholders at 96..328 bytes either side (re-based rel8 displacements on both sides of the signed-byte limits) and far placeholders of 14..47 bytes (the relocated prefix plus its jump back fits exactly, barely or not at all: nothing outside the placeholder may change); '
         'distinct = distinct copied-prefix opcode shapes + refusal reasons + zoo (shape, placeholder side, stack-check) classes')
 
 
@@ -32,7 +32,8 @@ def run(ctx):
         near = ['before:112', 'before:136', 'before:200', 'before:248', 'after:128', 'after:168']
         if ctx.thorough:
             near = ['before:%d' % n for n in range(96, 329, 8)] + ['after:%d' % n for n in range(96, 329, 8)]
-        for side in ['before', 'after'] + near:
+        small = ['small:%d' % n for n in ((18, 22, 26, 30, 32, 34, 38) if not ctx.thorough else range(14, 48))]
+        for side in ['before', 'after'] + near + small:
             jobs.append(dict(binary=b, run='TestC03Synth', timeout=120, what='synthetic shape %d placeholder %s' % (i, side),
                              crash_key='C03/synthetic-zoo-crash', env={'VERIF_C03_SHAPE': str(i), 'VERIF_C03_PHSIDE': side}))
     ctx.parallel(jobs, parallel=8)
